@@ -85,7 +85,7 @@ def enc_stmt(s, ext=False):
         via = "@" + s[2] if ext and len(s) > 2 else ""
         return "%s%s(%s)" % (k, via, enc_block(s[1], ext))
     if k == "F":
-        return "F%s(%s)" % (enc_v(s[1], ext), enc_block(s[2], ext))
+        return "F%s%s(%s)" % ("@multi" if ext and len(s) > 3 else "", enc_v(s[1], ext), enc_block(s[2], ext))
     if k == "K":
         return "K%s(%s)" % ("-" if s[1] is None else str(s[1]), enc_block(s[2], ext))
     if k in "G:ME":
@@ -176,7 +176,10 @@ def lua_stmt(s, ind):
     if k == "U":
         return [ind + "repeat"] + lua_block(s[1], i2) + [ind + "until not D()"]
     if k == "F":
-        if s[1][0] == "p":
+        if len(s) > 3:
+            # the closing value is the 4th RESULT of a call, not a 4th written expression
+            hd = "for _ in FORIN(%s) do" % ("" if s[1][0] == "p" else lua_v(s[1]))
+        elif s[1][0] == "p":
             hd = "for _ in IT do"
         else:
             hd = "for _ in IT, nil, nil, %s do" % lua_v(s[1])
@@ -311,7 +314,7 @@ BOUNDARY = {"Q": ("P", "load"), "H": ("P", "hook"), "Z": ("P", "gc"),
 def wrap(c, body, ids):
     """statement for construct c around block body"""
     if c == "F":
-        return ("F", ids["forv"], body)
+        return ("F", ids["forv"], body, "multi") if ids.get("fmulti") else ("F", ids["forv"], body)
     if c == "K":
         return ("K", ids["k"], body)
     if c in BOUNDARY:
@@ -365,6 +368,14 @@ def nest_program(chain, exitk, raiser, coro_k=None, forv_mode=0):
                 ret = "R"
             elif exitk == "retcall":
                 ret = ("T", ([("M", 300)], None))
+            elif exitk == "gotoret":
+                # a goto to a label that is followed by the block's return: the label is NOT an end-of-block label,
+                # the variables are closed after the returned call, not at the goto
+                stmts += [("I", ([("G", 3)], None)), ("M", 160), (":", 3)]
+                ret = ("T", ([("M", 300)], None))
+            elif exitk == "gotoret0":
+                stmts += [("G", 3), (":", 3)]
+                ret = ("T", ([("M", 300)], None))
             elif exitk == "error":
                 stmts.append(("E", 7))
             elif exitk == "bad":
@@ -375,7 +386,8 @@ def nest_program(chain, exitk, raiser, coro_k=None, forv_mode=0):
             return (stmts, ret)
         c = chain[level]
         inner = build(level + 1)
-        ids = {"forv": [("o", 40 + level), ("p",), ("n",), ("r", 40 + level, 90 + level)][forv_mode % 4], "k": coro_k}
+        ids = {"forv": [("o", 40 + level), ("p",), ("n",), ("r", 40 + level, 90 + level)][forv_mode % 4], "k": coro_k,
+               "fmulti": (forv_mode // 4) % 2 == 1}
         stmts = [("L", newv(level)), ("M", 100 + level), wrap(c, inner, ids), ("M", 200 + level)]
         if exitk == "goto" and level == same_fn_from:
             stmts.append((":", 1))
@@ -401,7 +413,7 @@ def chain_ok(chain, exitk):
 
 
 def enumerate_family(maxd):
-    exits = ["fall", "break", "goto", "cont", "return", "retcall", "error", "bad"]
+    exits = ["fall", "break", "goto", "cont", "return", "retcall", "error", "bad", "gotoret", "gotoret0"]
     raisers = ["none", "inner", "outer"]
     n = 0
     for d in range(1, maxd + 1):
@@ -508,7 +520,7 @@ class RandGen:
             if s[0] in "DWUI":
                 return (s[0], pb(s[1]))
             if s[0] == "F":
-                return ("F", s[1], pb(s[2]))
+                return ("F", s[1], pb(s[2])) + tuple(s[3:])
             return s
         return pb(b)
 
@@ -527,7 +539,8 @@ class RandGen:
             elif k < 48 and depth > 0:
                 stmts.append((r.choice("WU"), self.block(depth - 1, True, in_coro, labels, gotos, False)))
             elif k < 53 and depth > 0:
-                stmts.append(("F", self.value(), self.block(depth - 1, True, in_coro, labels, gotos, False)))
+                fs = ("F", self.value(), self.block(depth - 1, True, in_coro, labels, gotos, False))
+                stmts.append(fs + ("multi",) if r.chance(1, 3) else fs)
             elif k < 62 and depth > 0:
                 stmts.append(("I", self.block(depth - 1, in_loop, in_coro, labels, gotos, False)))
             elif k < 67 and depth > 0:
@@ -597,6 +610,69 @@ def labels_first(b):
     if b[1] not in (None, "R") and not labels_first(b[1][1]):
         return False
     return True
+
+
+LIMIT_PROGRAMS = [
+    # the nesting of Lua runs started from Go code (pcall, metamethods, load readers, ...) is bounded
+    # (maxGoFunctionCallDepth); the variables pending when the bound is hit are still closed exactly once
+    ("limit:pcall", """local n = 0
+local function rec() n = n + 1 local x <close> = mk(n) local ok, e = pcall(rec) if not ok then error(e, 0) end end
+emit("p", pcall(rec))
+"""),
+    ("limit:index-metamethod", """local n = 0
+local t = setmetatable({}, {__index = function(t, k) n = n + 1 local x <close> = mk(n) return t[k] end})
+emit("p", pcall(function() return t.x end))
+"""),
+    ("limit:load-reader", """local n = 0
+local function rec() n = n + 1 local x <close> = mk(n) load(rec) end
+emit("p", pcall(rec))
+"""),
+    ("limit:tostring", """local n = 0
+local o
+o = setmetatable({}, {__tostring = function() n = n + 1 local x <close> = mk(n) return tostring(o) end})
+emit("p", pcall(tostring, o))
+"""),
+]
+
+
+def bracket_predicates(evs):
+    """exactly once / reverse order / nothing pending, on a trace whose errors are runtime errors (no raise events)"""
+    pend, nopen = [], 0
+    for i, e in enumerate(evs.split(",")):
+        if e[0] == "o":
+            pend.append(e[1:])
+            nopen += 1
+        elif e[0] == "c":
+            vid = e[1:].split(":", 1)[0]
+            if not pend:
+                return nopen, "event %d: close of %s with nothing pending (closed twice?)" % (i, vid)
+            if pend[-1] != vid:
+                return nopen, "event %d: close of %s but the innermost pending variable is %s" % (i, vid, pend[-1])
+            pend.pop()
+    if pend:
+        return nopen, "end: %d variable(s) never closed, innermost %s" % (len(pend), pend[-1])
+    return nopen, None
+
+
+def limit_check(ck, gvh):
+    lines = ["l%d %s -" % (i, src.encode().hex()) for i, (_, src) in enumerate(LIMIT_PROGRAMS)]
+    out = vlib.run_lines_resilient(gvh, [], lines, per_case_timeout=60)
+    for (name, src), g in zip(LIMIT_PROGRAMS, out):
+        ck.count("family:limit")
+        if " I:" not in g:
+            ck.violation("golua crashed or hung at the re-entry limit: " + g[:200], {"kind": "crash", "lua": src, "family": name})
+            continue
+        gd = parse_oracle(g)
+        gt = canon_trace(gd["T"])
+        nopen, fail = bracket_predicates(gt)
+        ck.case(name + "/" + src, nontrivial=nopen > 100)
+        if fail is None and nopen < 100:
+            fail = "the program did not reach the nesting limit (%d variables declared)" % nopen
+        if fail:
+            ck.violation("to-be-closed property fails on golua at the limit of nested Lua runs: " + fail,
+                         {"kind": "Go!=S", "engine": "close", "family": name, "lua": src, "variables_declared": nopen,
+                          "failed_predicate": fail, "go_trace_tail": gt[-300:],
+                          "theorems": ["C10_close_exactly_once", "C10_close_reverse_order"]})
 
 
 def parse_oracle(line):
@@ -728,7 +804,7 @@ def reductions(b):
                 yield (stmts[:i] + list(s[1][0]) + stmts[i + 1:], ret if s[1][1] is None else ret)
         elif s[0] == "F":
             for sub in reductions(s[2]):
-                yield (stmts[:i] + [("F", s[1], sub)] + stmts[i + 1:], ret)
+                yield (stmts[:i] + [("F", s[1], sub) + tuple(s[3:])] + stmts[i + 1:], ret)
         elif s[0] == "K":
             for sub in reductions(s[2]):
                 yield (stmts[:i] + [("K", s[1], sub)] + stmts[i + 1:], ret)
@@ -854,7 +930,7 @@ def run(tier, seed):
                 small = shrink_block(b, still)
                 rr = evaluate(ck, gvh, oracle, [("shrunk", small, r["ds"])])
                 dd = judge(ck, rr[0], {"nocompile": 0, "fuel": 0, "vm_ne_ref": 0}) if rr else diffs
-                ck.violation("to-be-closed property fails on golua: " + (dd[0][1] if dd else diffs[0][1])[:300],
+                ck.violation("to-be-closed property fails on golua: " + next((m for k, m in (dd or diffs) if k in ("ref", "pred", "crash", "status")), (dd or diffs)[0][1])[:300],
                              {"kind": "Go!=S", "engine": "close", "program": enc_block(small, True), "decisions": r["ds"],
                               "lua": lua_program(small), "go_trace": rr[0].get("gotrace") if rr else None,
                               "reference_trace": rr[0]["model"]["R"] if rr else None,
@@ -863,7 +939,8 @@ def run(tier, seed):
                                            "C10_close_gets_inflight_error", "C10_handler_error_replaces_and_rest_still_run"]})
         elif first_im is None:
             first_im = (r, diffs)
-    if first_im is not None and nviol == 0:
+    limit_check(ck, gvh)
+    if first_im is not None and nviol == 0 and not ck.violations:
         r, diffs = first_im
         ck.violation("golua no longer matches the Coq models Close/Compile.v / Close/VMclose.v (%s); behaviour still equals the reference semantics on every generated program"
                      % ", ".join("%s:%d" % kv for kv in sorted(kinds.items())),
@@ -965,8 +1042,11 @@ def dec_block(s):
                 return (c, paren(), m.group(1))
             return (c, paren())
         if c == "F":
+            multi = s[pos[0]:].startswith("@multi")
+            if multi:
+                pos[0] += 6
             v = val()
-            return ("F", v, paren())
+            return ("F", v, paren(), "multi") if multi else ("F", v, paren())
         if c == "K":
             if peek() == "-":
                 pos[0] += 1
